@@ -328,7 +328,7 @@ def mc_monitors(sc, runs, ref_runs):
         # the same stage explored by the reference semantics must evaluate the same states (modulo the checker's
         # equality).  Only where the comparison is meaningful: state-based predicates, or BFS everywhere (then a class
         # is first discovered at its minimal depth under both equalities, so depth-based collects agree as well)
-        if ref_runs is not None and k < len(ref_runs) and r["kind"] == "RUNFROM" and staged_comparable(sc):
+        if ref_runs is not None and k < len(ref_runs) and r["kind"] == "RUNFROM" and staged_comparable(sc, k):
             rr = ref_runs[k]
             if rr["result"] and rr["result"][0] == "OK" and r["result"][0] == "OK" and rr["kind"] == "RUNFROM":
                 a = set(c["eqp"] for c in r["checks"])
@@ -343,13 +343,37 @@ def mc_monitors(sc, runs, ref_runs):
 STATE_BASED_PREDS = ("NONE", "NOEVENTS", "OUTBOXEQ", "OUTBOXMAX", "HISTMAX", "ALL")
 
 
-def staged_comparable(sc):
-    preds = [l.split() for l in sc[2] if l.startswith("PRED ")]
-    runs = [l.split() for l in sc[2] if l.startswith(("RUN ", "RUNFROM "))]
-    state_based = all(p[2] in STATE_BASED_PREDS for p in preds)
-    all_bfs = all(r[1] == "BFS" for r in runs)
-    no_disabled = all(r[2] != "DISABLED" for r in runs)
-    return (state_based or all_bfs) and no_disabled
+def staged_comparable(sc, upto=None):
+    """may run number `upto` (default: the last) of a staged scenario be compared with the same stage of the reference
+    semantics (whose equality is finer)?  Every run up to it must be comparable:
+    * no Disabled mode;
+    * a run from ONE start state: state-based predicates, or BFS (a class is first discovered at its minimal depth
+      under both equalities, so depth-based predicates agree);
+    * a run from SEVERAL start states shares one cache between them, and the order of the start states differs between
+      the two semantics: whatever steers the exploration (invariant, goal, prune) must then be a function of the state -
+      with a depth bound a state first reached deep from one start state hides its expansion from a shallower one
+      (found by the thorough tier, seed 11); a depth-based COLLECT is still fine under BFS."""
+    cur = {}
+    k = -1
+    for l in sc[2]:
+        t = l.split()
+        if t[0] == "PRED":
+            cur[t[1]] = t[2]
+        elif t[0] in ("RUN", "RUNFROM"):
+            k += 1
+            if t[2] == "DISABLED":
+                return False
+            sb = lambda which: cur.get(which, "NONE") in STATE_BASED_PREDS
+            steer_sb = sb("INV") and sb("GOAL") and sb("PRUNE")
+            if t[0] == "RUN":
+                if not ((steer_sb and sb("COLLECT")) or t[1] == "BFS"):
+                    return False
+            else:
+                if not (steer_sb and (sb("COLLECT") or t[1] == "BFS")):
+                    return False
+            if upto is not None and k >= upto:
+                break
+    return True
 
 
 
